@@ -22,7 +22,7 @@ def r1(ctx):
     tables.string_table(ctx, FUNC_FROM_STR, fn, "function")
     tables.string_table(ctx, "operators::Op::from", oracles.OP_SPELLINGS, "operator")
     tables.string_table(ctx, "operators::ArithmeticOp::from", oracles.ARITH_SPELLINGS, "arithmetic")
-    tables.string_table(ctx, "query::OutputFormat::from", {v: [k] for k, v in oracles.OUTPUT_FORMATS.items()}, "format")
+    tables.string_table_eval(ctx, "query::OutputFormat::from", {v: [k] for k, v in oracles.OUTPUT_FORMATS.items()}, "format")
 
 
 def _ladder(ctx, fn):
